@@ -101,3 +101,129 @@ Qed.
 
 Example hunt_partial_nonvacuous : known_C10_hunt6 [HStop [2;0;0;0;0;1]; HStop [2;0;0;0;0;2]] = false.
 Proof. reflexivity. Qed.
+
+(* ---------------------------------------------------------------- *)
+(* ARP spoofer hunt list: with a copying StartHunt the transcript (first announcements, periodic
+   announcements / restores of every loop, spoofed replies) depends only on the packet-level history *)
+
+Definition p4state := (list (bytes * bytes) * list bytes)%type.
+Definition emb4 (p : p4state) : h4state :=
+  {| h4_list := map (fun e => (fst e, Owned (snd e))) (fst p); h4_loops := map Owned (snd p) |}.
+
+Definition p4_has (k : bytes) (p : p4state) : bool := existsb (fun e => beqb (fst e) k) (fst p).
+Definition p4_val (k : bytes) (p : p4state) : option bytes := option_map snd (find (fun e => beqb (fst e) k) (fst p)).
+
+Definition p4_tick1 (p : p4state) (acc : list bytes * list string) (k : bytes) : list bytes * list string :=
+  match p4_val k p with
+  | Some tv => (fst acc ++ [k], snd acc ++ [item_announce tv])
+  | None => (fst acc, snd acc ++ [item_restore k])
+  end.
+
+Definition p4step (rip : bytes) (p : p4state) (o : h4op) : p4state * list string :=
+  match o with
+  | A4Start f => let mac := sub f 6 6 in
+                 if p4_has mac p then (p, []) else ((fst p ++ [(mac, mac)], snd p ++ [mac]), [item_announce mac])
+  | A4Stop m => ((remove_first (fun e => beqb (fst e) m) (fst p), snd p), [])
+  | A4Tick => let r := fold_left (p4_tick1 p) (snd p) ([], []) in ((fst p, fst r), snd r)
+  | A4Request f => (p, if p4_has (sub f 22 6) p && beqb (sub f 38 4) rip then [item_reply (sub f 22 6)] else [])
+  end.
+
+Definition p4run (rip : bytes) (ops : list h4op) : p4state * list (list string) :=
+  fold_left (fun acc o => let r := p4step rip (fst acc) o in (fst r, snd acc ++ [snd r])) ops (([], []), []).
+
+Definition h4proj1 (e : h4eop) : list h4op :=
+  match e with
+  | AEStart _ f => [A4Start f]
+  | AEScribble _ _ => []
+  | AEStop m => [A4Stop m]
+  | AETick => [A4Tick]
+  | AERequest _ f => [A4Request f]
+  end.
+Definition h4proj (h : list h4eop) : list h4op := flat_map h4proj1 h.
+
+Lemma h4_has_emb k p : h4_has k (emb4 p) = p4_has k p.
+Proof.
+  unfold h4_has, p4_has, emb4; cbn [h4_list]. induction (fst p) as [|e r IH]; simpl; auto. rewrite IH. reflexivity.
+Qed.
+
+Lemma h4_val_emb k p : h4_val k (emb4 p) = option_map Owned (p4_val k p).
+Proof.
+  unfold h4_val, p4_val, emb4; cbn [h4_list]. induction (fst p) as [|e r IH]; simpl; auto.
+  destruct (beqb (fst e) k); simpl; auto.
+Qed.
+
+Lemma remove_first_emb m l :
+  remove_first (fun e : bytes * rv => beqb (fst e) m) (map (fun e : bytes * bytes => (fst e, Owned (snd e))) l) =
+  map (fun e => (fst e, Owned (snd e))) (remove_first (fun e => beqb (fst e) m) l).
+Proof. induction l as [|e r IH]; simpl; auto. destruct (beqb (fst e) m); auto. rewrite IH. reflexivity. Qed.
+
+Lemma tick_fold_emb s p lo : forall a1 a2,
+  fold_left (h4_tick1 s (emb4 p)) (map Owned lo) (map Owned a1, a2) =
+  (map Owned (fst (fold_left (p4_tick1 p) lo (a1, a2))), snd (fold_left (p4_tick1 p) lo (a1, a2))).
+Proof.
+  induction lo as [|k r IH]; intros a1 a2; cbn [fold_left map fst snd]; auto.
+  unfold h4_tick1 at 2, p4_tick1 at 2 4. cbn [deref fst snd]. rewrite h4_val_emb.
+  destruct (p4_val k p) as [tv|]; cbn [option_map deref fst snd].
+  - replace (map Owned a1 ++ [Owned k]) with (map Owned (a1 ++ [k])) by (rewrite map_app; reflexivity). apply IH.
+  - apply IH.
+Qed.
+
+Lemma h4estep_sim rip s p out e :
+  exists s', h4estep true rip {| aw_store := s; aw_state := emb4 p; aw_out := out |} e =
+             {| aw_store := s';
+                aw_state := emb4 (fst (fold_left (fun acc o => let r := p4step rip (fst acc) o in (fst r, snd acc ++ [snd r])) (h4proj1 e) (p, out)));
+                aw_out := snd (fold_left (fun acc o => let r := p4step rip (fst acc) o in (fst r, snd acc ++ [snd r])) (h4proj1 e) (p, out)) |}.
+Proof.
+  destruct e as [buf f|buf c|m| |buf f]; cbn [h4estep h4proj1 fold_left fst snd aw_store aw_state aw_out p4step].
+  - eexists. unfold h4_start. rewrite h4_has_emb. destruct (p4_has (sub f 6 6) p); cbn [fst snd]; [reflexivity|].
+    f_equal. unfold emb4; cbn [fst snd h4_list h4_loops]. rewrite !map_app. reflexivity.
+  - eexists. reflexivity.
+  - eexists. f_equal. unfold h4_stop, emb4; cbn [h4_list h4_loops fst snd]. rewrite remove_first_emb. reflexivity.
+  - eexists. unfold h4_tick.
+    pose proof (tick_fold_emb s p (snd p) [] []) as Ht. cbn [map] in Ht.
+    change (h4_loops (emb4 p)) with (map Owned (snd p)). rewrite Ht. cbn [fst snd]. reflexivity.
+  - eexists. unfold h4_request. rewrite h4_has_emb. reflexivity.
+Qed.
+
+Lemma h4run_sim rip h : forall s p out,
+  exists s' p', fold_left (h4estep true rip) h {| aw_store := s; aw_state := emb4 p; aw_out := out |} =
+                {| aw_store := s'; aw_state := emb4 p';
+                   aw_out := snd (fold_left (fun acc o => let r := p4step rip (fst acc) o in (fst r, snd acc ++ [snd r])) (h4proj h) (p, out)) |}.
+Proof.
+  induction h as [|e r IH]; intros s p out; cbn [fold_left h4proj flat_map].
+  - exists s, p. reflexivity.
+  - destruct (h4estep_sim rip s p out e) as [s1 E1]. rewrite E1. rewrite fold_left_app.
+    set (acc := fold_left _ (h4proj1 e) (p, out)).
+    destruct (IH s1 (fst acc) (snd acc)) as (s2 & p2 & E2). exists s2, p2. rewrite E2.
+    replace (fst acc, snd acc) with acc by (destruct acc; reflexivity). reflexivity.
+Qed.
+
+Theorem hunt4_copy_proj rip h : h4transcript true rip h = snd (p4run rip (h4proj h)).
+Proof.
+  unfold h4transcript, h4run, p4run.
+  destruct (h4run_sim rip h [] ([], []) []) as (s' & p' & E). change (emb4 ([], [])) with {| h4_list := []; h4_loops := [] |} in E.
+  rewrite E. reflexivity.
+Qed.
+
+Lemma h4proj_shared scr p : forall i, h4proj (h4shared scr i p) = p.
+Proof. induction p as [|[f|m| |f] r IH]; intros i; simpl; auto; rewrite IH; reflexivity. Qed.
+Lemma h4proj_fresh p : forall n, h4proj (h4fresh n p) = p.
+Proof. induction p as [|[f|m| |f] r IH]; intros n; simpl; auto; rewrite IH; reflexivity. Qed.
+
+Theorem hunt4_noninterference_copy rip scr p :
+  h4transcript true rip (h4shared scr 0 p) = h4transcript true rip (h4fresh 0 p).
+Proof. rewrite !hunt4_copy_proj, h4proj_shared, h4proj_fresh. reflexivity. Qed.
+
+(* without the copy: after the buffer is reused the loop no longer finds its own key and gives up,
+   announcing the restore to whatever the buffer holds *)
+Definition ex_hunt4_frame : bytes :=
+  [0;102;102;102;102;102; 2;0;0;0;0;1; 8;0; 69;0;0;28; 0;0;0;0; 64;17;0;0; 192;168;0;5; 192;168;0;11; 4;0;7;208;0;8;0;0].
+Definition ex_hunt4_hist : list h4op := [A4Start ex_hunt4_frame; A4Tick].
+
+Theorem hunt4_refuted_ref :
+  exists scr p, h4transcript false [192;168;0;11] (h4shared scr 0 p) <> h4transcript false [192;168;0;11] (h4fresh 0 p).
+Proof. exists ex_hunt_scr, ex_hunt4_hist. vm_compute. discriminate. Qed.
+
+Example ex_hunt4_runs :
+  h4transcript true [192;168;0;11] (h4shared ex_hunt_scr 0 ex_hunt4_hist) = [[item_announce [2;0;0;0;0;1]]; [item_announce [2;0;0;0;0;1]]].
+Proof. vm_compute. reflexivity. Qed.
